@@ -135,6 +135,7 @@ def instances(tier, seed):
     add("rt:cart:t4:bond+extra", cell='t4', N=2, terms={'bond': 1}, fract=False, extra=True, cost=30)
     add("rt:frac:tr:arbitrary-orientation", cell='tr', N=2, terms={'bond': 1}, fract=True, cost=30)
     add("rt:frac:orot:two-extra-term-columns", cell='orot', N=2, terms={'bond': 1, 'angle': 1, 'dihedral': 1}, fract=True, extra2=True, cost=30)
+    add("rt:frac:t2:history:written-before-in-another-cell", cell='t2', N=2, terms={'bond': 1}, fract=True, history='written-before-in-another-cell', cell_before='o2', cost=40)
     add("rt:cart:nocell", cell=None, N=2, terms={}, fract=True, cost=5)
     # two atom types of the same element (force-field typed structure): labels must still be unique per atom
     add("rt:frac:o1:two-types-one-element", cell='o1', N=3, terms={'bond': 1, 'angle': 1}, fract=True, typed=True, cost=30)
@@ -196,6 +197,13 @@ def body(ctx, p):
         setattr(a, f'extra_{k}_labels', type(a.extra_atom_labels)(lab))
         setattr(a, f'extra_{k}_fields', np.array([[f"{k}{j}x{c}" for c in range(len(lab))] for j in range(n)], dtype=object).reshape((n, len(lab))))
         xl[k] = lab
+    if p.get('history') == 'written-before-in-another-cell':
+        # HISTORY: the same object was already written once while it still had another cell (e.g. before a cell optimisation / as the unit
+        # cell of the supercell it now is); the text written now must describe the structure as it is now
+        a.cell = np.array(CELLS[p['cell_before']], dtype=float)
+        a.save_p1_cif(io.StringIO(), use_fract_coords=True)
+        a.copy().save_p1_cif(io.StringIO(), use_fract_coords=True)
+        a.cell = np.array(cell, dtype=float)
     f = io.StringIO()
     a.save_p1_cif(f, use_fract_coords=bool(p['fract']))
     text1 = f.getvalue()
